@@ -1,0 +1,37 @@
+//go:build verif
+
+// Contracts for the verification machinery in /verif (comment-only, built only with -tags verif).
+
+package layer2
+
+// ---- C13 / C20: the announcer's state is guarded by its embedded RWMutex ----
+//@ guarded_by Announce.RWMutex : Announce.nodeInterfaces, Announce.arps, Announce.ndps, Announce.ips, Announce.ipRefcnt
+
+// Covers: the advertisement covers interface intf.
+//@ pred Covers(ad IPAdvertisement, intf string) := ad.allInterfaces || (intf in ad.interfaces)
+// Entry(a, s, k): service s has a k-th advertisement.
+//@ pred Entry(a *Announce, s string, k int) := (s in a.ips) && 0 <= k && k < len(a.ips[s])
+// Answers: some announced Service holds ip with an advertisement covering intf.
+//@ pred Answers(a *Announce, ip net.IP, intf string) := exists s string, k int :: Entry(a, s, k) && a.ips[s][k].ip.Equal(ip) && Covers(a.ips[s][k], intf)
+// Held: some announced Service holds ip (on whatever interfaces).
+//@ pred Held(a *Announce, ip net.IP) := exists s string, k int :: Entry(a, s, k) && a.ips[s][k].ip.Equal(ip)
+
+//@ func (*IPAdvertisement).matchInterface
+//@   ensures result == (i != nil && Covers(*i, intf))
+//@   modifies nothing
+
+// The responders' decision: answer exactly for the addresses currently announced on that interface.
+//@ func (*Announce).shouldAnnounce
+//@   requires a != nil && lockstate(a.RWMutex) == 0
+//@   ensures [answers] (result == dropReasonNone) == Answers(a, ip, intf)
+//@   ensures [unknown] (result == dropReasonAnnounceIP) == !Held(a, ip)
+//@   ensures [reason] result == dropReasonNone || result == dropReasonAnnounceIP || result == dropReasonNotMatchInterface
+//@   ensures [unlocked] lockstate(a.RWMutex) == 0
+//@   modifies $held, fresh *IPAdvertisement
+//@   loop 1 invariant lockstate(a.RWMutex) == 1
+//@   loop 1 invariant forall s string, k int :: (s in visited) && Entry(a, s, k) && a.ips[s][k].ip.Equal(ip) ==> !Covers(a.ips[s][k], intf)
+//@   loop 1 invariant ipFound == (exists s string, k int :: (s in visited) && Entry(a, s, k) && a.ips[s][k].ip.Equal(ip))
+//@   loop 2 invariant lockstate(a.RWMutex) == 1 && (curkey(1) in a.ips) && (curkey(1) in visited(1)) && sameSlice(ipAdvertisements, a.ips[curkey(1)])
+//@   loop 2 invariant forall s string, k int :: (s in visited(1)) && s != curkey(1) && Entry(a, s, k) && a.ips[s][k].ip.Equal(ip) ==> !Covers(a.ips[s][k], intf)
+//@   loop 2 invariant forall k int :: 0 <= k && k < iter && ipAdvertisements[k].ip.Equal(ip) ==> !Covers(ipAdvertisements[k], intf)
+//@   loop 2 invariant ipFound == ((exists s string, k int :: (s in visited(1)) && s != curkey(1) && Entry(a, s, k) && a.ips[s][k].ip.Equal(ip)) || (exists k int :: 0 <= k && k < iter && ipAdvertisements[k].ip.Equal(ip)))
